@@ -1,21 +1,22 @@
 (* C18 at the model level: the full correctness statement of the Go-faithful model of
    Canonicalize ([T2], not proved in full), the cases proved, and the F04 / O2 witnesses on
    the as-found variants. *)
-From CV Require Import Value.ValueEq Value.EqualM Value.CanonSpec Value.CanonM Value.EqualProofs Value.Den.
-From CV Require Import Core.ReaderFacts.
+From CV Require Import Value.ValueEq Value.EqualM Value.CanonSpec Value.CanonM Value.EqualProofs Value.Den
+                       Value.CanonProofs Value.CanonProofs3 Value.CanonMStruct.
+From CV Require Import Core.ReaderFacts Core.SafetyProofs.
 Open Scope Z_scope.
 
-Definition all_cfixed (fx : cfix) : Prop :=
-  cx_complist fx = true /\ cx_bitpad fx = true /\ cx_farnull fx = true /\
-  fx_depth (cx_rd fx) = true /\ fx_upgrade (cx_rd fx) = true /\ fx_bit (cx_rd fx) = true.
-
 (* [T2] whenever Canonicalize returns bytes, they are the specification's canonical form of
-   the value the struct denotes; with a capability-free value and sufficient limits it does
-   return bytes (the converse direction is part of the statement) *)
+   the value the struct denotes, and it never panics (the as-found code did: F04).
+   Proved so far: the null struct (canon_m_null_partial), the size computation for every
+   struct (CanonMStruct.canonicalStructSize_spec) and, end to end, every struct whose fields
+   are all default (CanonMStruct.canon_m_default_struct_partial).  Open: the heap-level
+   induction (allocation order = pre-order layout, pointer words = struct_word/list_word). *)
 Definition canon_m_correct_statement : Prop :=
   forall fuel c fx m rl s v,
-    all_cfixed fx ->
-    cfg_strict c = true -> msg_ok m -> den true m 0 [] s v ->
+    all_cfixed fx -> cfg_strict c = true -> msg_ok m -> wf_ptr m s ->
+    (p_valid s = true -> p_kind s = KStruct /\ DataSize (p_size s) mod 8 = 0) ->
+    den true m 0 [] s v ->
     forall r rl', canonicalize c fx fuel m rl s = (r, rl') ->
     match r with
     | KOk bs => canon v = Some bs
@@ -23,6 +24,54 @@ Definition canon_m_correct_statement : Prop :=
     | KPanic => False
     | KFuel => True
     end.
+
+(* what follows from it, with the specification-level theorems (all proved): *)
+(* layout / version independence of Canonicalize *)
+Theorem canon_m_layout_independent_if : canon_m_correct_statement ->
+  forall fuel c fx m1 rl1 s1 v1 m2 rl2 s2 v2 bs1 bs2 r1 r2,
+    all_cfixed fx -> cfg_strict c = true -> msg_ok m1 -> msg_ok m2 -> wf_ptr m1 s1 -> wf_ptr m2 s2 ->
+    (p_valid s1 = true -> p_kind s1 = KStruct /\ DataSize (p_size s1) mod 8 = 0) ->
+    (p_valid s2 = true -> p_kind s2 = KStruct /\ DataSize (p_size s2) mod 8 = 0) ->
+    den true m1 0 [] s1 v1 -> den true m2 0 [] s2 v2 ->
+    nocap v1 = true -> value_eqs v1 v2 = true ->
+    canonicalize c fx fuel m1 rl1 s1 = (KOk bs1, r1) -> canonicalize c fx fuel m2 rl2 s2 = (KOk bs2, r2) ->
+    bs1 = bs2.
+Proof.
+  intros T fuel c fx m1 rl1 s1 v1 m2 rl2 s2 v2 bs1 bs2 r1 r2 Hf Hs M1 M2 W1 W2 K1 K2 D1 D2 Hc He C1 C2.
+  pose proof (T fuel c fx m1 rl1 s1 v1 Hf Hs M1 W1 K1 D1 _ _ C1) as E1. cbn in E1.
+  pose proof (T fuel c fx m2 rl2 s2 v2 Hf Hs M2 W2 K2 D2 _ _ C2) as E2. cbn in E2.
+  rewrite (canon_unique v1 v2 Hc He) in E1. congruence.
+Qed.
+
+(* value preservation: the output decodes (strict pre-order decoder) to an equal value *)
+Theorem canon_m_value_preserved_if : canon_m_correct_statement ->
+  forall fuel c fx m rl s v bs r,
+    all_cfixed fx -> cfg_strict c = true -> msg_ok m -> wf_ptr m s ->
+    (p_valid s = true -> p_kind s = KStruct /\ DataSize (p_size s) mod 8 = 0) ->
+    den true m 0 [] s v -> good v ->
+    canonicalize c fx fuel m rl s = (KOk bs, r) ->
+    exists v', cdecode (S (vdepth (norm v))) bs = Some v' /\ value_eqs v' v = true /\ value_eq v' v = true.
+Proof.
+  intros T fuel c fx m rl s v bs r Hf Hs M W K D G C.
+  pose proof (T fuel c fx m rl s v Hf Hs M W K D _ _ C) as E. cbn in E.
+  apply canon_decodes_equal; assumption.
+Qed.
+
+(* idempotence: canonicalising a message that reads back as an equal value returns the same bytes *)
+Theorem canon_m_idempotent_if : canon_m_correct_statement ->
+  forall fuel c fx m rl s v bs r m' rl' s' v' bs' r',
+    all_cfixed fx -> cfg_strict c = true -> msg_ok m -> msg_ok m' -> wf_ptr m s -> wf_ptr m' s' ->
+    (p_valid s = true -> p_kind s = KStruct /\ DataSize (p_size s) mod 8 = 0) ->
+    (p_valid s' = true -> p_kind s' = KStruct /\ DataSize (p_size s') mod 8 = 0) ->
+    den true m 0 [] s v -> nocap v = true ->
+    canonicalize c fx fuel m rl s = (KOk bs, r) ->
+    den true m' 0 [] s' v' -> value_eqs v v' = true ->      (* m' = the output, read back *)
+    canonicalize c fx fuel m' rl' s' = (KOk bs', r') ->
+    bs' = bs.
+Proof.
+  intros T fuel c fx m rl s v bs r m' rl' s' v' bs' r' Hf Hs M M' W W' K K' D Hc C D' He C'.
+  symmetry. eapply (canon_m_layout_independent_if T fuel c fx m rl s v m' rl' s' v'); eassumption.
+Qed.
 
 (* proved: the invalid struct (Canonicalize of a null pointer's Struct()) *)
 Theorem canon_m_null_partial : forall fuel c fx m rl s,
